@@ -366,6 +366,7 @@ def stepper_on_implementations(seed, n_games):
             stp = steps.AutomatonStepper(aut)
             impl = aut.action['impl']
             allv = list(de) + list(ds) + ['_goal']
+            shared = dict()       # ONE dict object, updated in place between calls
             for st in list(aut.pick_iter(aut.true, allv))[:40]:
                 for xp in aut.pick_iter(aut.true, [v + "'" for v in de]):
                     n += 1
@@ -377,7 +378,12 @@ def stepper_on_implementations(seed, n_games):
                         pass
                     enabled = u != aut.false
                     try:
-                        r = stp.step(dict(state))
+                        if n % 2:
+                            shared.clear()
+                            shared.update(state)
+                            r = stp.step(shared)
+                        else:
+                            r = stp.step(dict(state))
                         if not enabled:
                             fails.append(dict(name='stepper signals an error when the action is disabled', state=str(state)))
                             continue
@@ -397,4 +403,79 @@ def stepper_on_implementations(seed, n_games):
                 fails.append(dict(name='stepper initial values satisfy the initial condition', init=str(i0)))
         return dict(records=[], stats=dict(), functions={}, bounded=dict(
             evaluations=n, implementations=built, failures=fails))
+    return run
+
+
+def symbolic_assembly_check():
+    """Assemblies of REAL `AutomatonStepper`s: a hand-written component that owns
+    the input and a synthesized component (Moore and Mealy) that reads it.  A
+    Mealy stepper has to guess the next input; the only acceptable outcomes are
+    that the assembly refuses the step, or that every recorded step satisfies
+    the action of every component (evaluated as plain Python predicates)."""
+    def run():
+        import contextlib
+        import io
+        import omega.games.gr1 as gr1
+        import omega.symbolic.temporal as trl
+        fails = list()
+        n = 0
+
+        def make_env(kind):
+            aut = trl.Automaton()
+            aut.declare_variables(x='bool')
+            aut.varlist = dict(env=[], sys=['x'], impl=['x'])
+            aut.prime_varlists()
+            aut.init['impl'] = '~ x'
+            aut.action['impl'] = {'toggle': "x' <=> ~ x", 'hold': "x' <=> x", 'set': "x'"}[kind]
+            return steps.AutomatonStepper(aut)
+
+        def make_ctl(moore, act):
+            aut = trl.Automaton()
+            aut.declare_variables(x='bool', y='bool')
+            aut.varlist.update(env=['x'], sys=['y'])
+            aut.init['env'], aut.init['sys'] = 'TRUE', '~ y'
+            aut.action['env'], aut.action['sys'] = 'TRUE', act
+            aut.win['<>[]'] = aut.bdds_from('TRUE')
+            aut.win['[]<>'] = aut.bdds_from('TRUE')
+            aut.qinit = r'\E \A'
+            aut.moore, aut.plus_one = moore, True
+            with contextlib.redirect_stdout(io.StringIO()):
+                z, yij, xijk = gr1.solve_streett_game(aut)
+                gr1.make_streett_transducer(z, yij, xijk, aut)
+            return steps.AutomatonStepper(aut)
+        env_sem = dict(toggle=lambda s, t: t['x'] == (not s['x']), hold=lambda s, t: t['x'] == s['x'], set=lambda s, t: t['x'])
+        ctl_cases = [(False, "y' <=> x'", lambda s, t: t['y'] == t['x']),
+                     (False, "y' <=> ~ x'", lambda s, t: t['y'] == (not t['x'])),
+                     (True, "y' <=> x", lambda s, t: t['y'] == s['x']),
+                     (True, "y' <=> ~ y", lambda s, t: t['y'] == (not s['y']))]
+        for ek in ('toggle', 'hold', 'set'):
+            for moore, act, csem in ctl_cases:
+                for order in (('env', 'ctl'), ('ctl', 'env')):
+                    n += 1
+                    try:
+                        ms = dict(env=make_env(ek), ctl=make_ctl(moore, act))
+                    except AssertionError:
+                        continue
+                    asm = steps.Assembly()
+                    for nm in order:
+                        asm.machines[nm] = ms[nm]
+                    try:
+                        asm.init()
+                        for _ in range(6):
+                            asm.step()
+                    except (AssertionError, ValueError):
+                        continue          # refused: acceptable
+                    beh = list(asm.past) + [asm.state]
+                    for i, (a, b) in enumerate(zip(beh, beh[1:])):
+                        if a is None:
+                            continue
+                        if not env_sem[ek](a, b) or not csem(a, b):
+                            if len(fails) < 6:
+                                fails.append(dict(name='every recorded step of the assembly satisfies every component\'s action (symbolic steppers, Moore and Mealy)',
+                                                  order=str(order), env=ek, ctl=act, moore=moore, step=i, state=str(a), next=str(b)))
+                            break
+        return dict(records=[], stats=dict(), functions={
+            'omega.steps.Assembly.step': dict(source_lines=0, cut={}, stubs=[], dropped='run natively with real steppers: bounded'),
+            'omega.steps.AutomatonStepper.step': dict(source_lines=0, cut={}, stubs=[], dropped='run natively: bounded')},
+            bounded=dict(evaluations=n, failures=fails))
     return run
